@@ -36,7 +36,7 @@ CONFIGS = {
              ["-fsanitize=thread"]),
     "plainA": ("g++", ["-O1", "-g1", "-ftrivial-auto-var-init=zero"], ["-O1", "-g1"], []),
     "plainB": ("g++", ["-O1", "-g1", "-ftrivial-auto-var-init=pattern"], ["-O1", "-g1"], []),
-    "cov": ("g++", ["-O0", "-g1", "--coverage"], ["-O1", "-g1"], ["--coverage"]),
+    "cov": ("g++", ["-O0", "-g1", "--coverage"], ["-O1", "-g1", "-DVERIF_COV"], ["--coverage"]),
 }
 
 # engine name -> (main source, extra harness sources, configs it may be built in)
